@@ -90,6 +90,9 @@ def r2(c):
         fl = [cs for cs in d.calls(p + '::failure')]
         ok = len(fl) == 1 and q.is_name(d, fl[0].args[0], 'self') and q.agg_variant_of(d, fl[0].args[1]) == (RE, 'Shutdown')
         c.ob('drop/%s' % p.split('::')[-2], ok, 'Drop for %s calls self.failure(RequestError::Shutdown)' % p, '', loc_of(d))
+        # unconditionally: every path through drop() passes the call (no early return under some condition)
+        unc = ok and all(d.postdominates(fl[0].node, n) or n == fl[0].node for n in [d.entry]) and not d.in_cycle(fl[0].node)
+        c.ob('drop/%s/unconditional' % p.split('::')[-2], unc, 'every path through drop() reaches that call: the backstop does not depend on any condition', '', loc_of(d))
 
 
 @rule('C10', 'R10.3', 'no leak: rodbus never forgets / leaks a value (a leaked promise would never complete)')
@@ -132,6 +135,22 @@ def r4(c):
     c.ob('fail_next_request/request-arm', q.dominated_by_any(f, req_e, fl2.node) and not f.in_cycle(fl2.node), 'only on the Command::Request arm, once', '', fl2.loc())
     s = q.initial_value(f, q.sem(f, fl2.args[0]))
     rcv = f.calls('rodbus::channel::Receiver::recv')
+    # every place that takes a Command::Request off the queue hands it on: executes it or fails it explicitly
+    n_arms = 0
+    for bb in P.all_bodies(crate='rodbus'):
+        if 'rodbus::client::task' not in bb.path or bb.kind in ('Static', 'Const') or bb.is_promoted:
+            continue
+        for e, v, info in bb.variant_edges('rodbus::client::message::Command'):
+            if v != 'Request' or e not in bb.reachable:
+                continue
+            n_arms += 1
+            sinks = {cs.node for cs in bb.calls(FAIL, RUN_ONE)}
+            rs = bb.reach_set(e, avoid=sinks)
+            esc = [n_ for n_ in rs if n_[0] == 'b' and bb.blocks[n_[1]]['term']['t'] in ('return', 'yield')]
+            c.ob('dequeued-request/%s' % P.logical_name(bb).rsplit('::', 1)[-1], bool(sinks) and not esc,
+                 'a request taken off the queue is always executed (run_one_request) or failed explicitly (details.fail) before the function returns or waits again - never just dropped (the Drop backstop would report Shutdown although the task is alive)',
+                 '%d paths escape' % len(esc), loc_of(bb, e[1]))
+    c.floor('Command::Request arms', n_arms, 2)
     c.ob('fail_next_request/that-request', s.kind == 'call' and len(rcv) == 1 and s.cs is rcv[0] and ':Request' in ''.join(s.proj), 'the request failed is the one just dequeued (the payload of the Command::Request received)', repr(s), fl2.loc())
 
 
